@@ -240,6 +240,12 @@ def cases(ctx):
                                 yield (L, side, averaged, where, dist, stop, 'futures', 'isolated', fast, emb)
                                 if where != 'gap-over' and stop != ('before', 2) and L > 1:
                                     yield (L, side, averaged, where, dist, stop, 'futures', 'isolated', fast, emb, 'partial')
+    if not ctx.quick:
+        # every leverage 1..125 at the boundary itself (touch / one tick short), both sides, normal simulator
+        for L in range(1, 126):
+            for side in ('long', 'short'):
+                for where in ('short-of', 'touch'):
+                    yield (L, side, False, where, 1, None, 'futures', 'isolated', False, emb)
     for L in (2, 25):
         for side in ('long', 'short'):
             for where in ('touch', 'cross', 'gap-over'):
